@@ -38,6 +38,17 @@ func (g *SQLGen) LitFor(t string) proto.Val {
 	return proto.Str(strDomain[r.Intn(len(strDomain))])
 }
 
+// DataFor is LitFor for values that are stored (not written in a query):
+// BIGINT columns also hold negative numbers - SQL text has no negative
+// literals, but rows arrive through csvimport and the engine's API - down to
+// the smallest one, and pairs whose difference does not fit 64 bits.
+func (g *SQLGen) DataFor(t string) proto.Val {
+	if t == "bigint" && g.R.Chance(1, 3) {
+		return proto.Int([]int64{-1, -(1 << 40), -9223372036854775808, -5000000000000000000, 5000000000000000000, -9223372036854775807}[g.R.Intn(6)])
+	}
+	return g.LitFor(t)
+}
+
 // StdTable builds the standard table shape used by C05-C07: u unique INT,
 // a small-domain INT, b BIGINT, s VARCHAR, f BOOLEAN (all non-NULL).
 func (g *SQLGen) StdTable(name string, rows int, extra ...proto.ColDef) (*proto.Stmt, *proto.Stmt) {
@@ -74,10 +85,10 @@ func (g *SQLGen) ShapedTable(name string, rows int, drop []string, extra ...prot
 	for i := 0; i < rows; i++ {
 		row := []proto.Val{proto.Int(int64(perm[i])), g.LitFor("int")}
 		for _, d := range defs[2:nstd] {
-			row = append(row, g.LitFor(d.Type))
+			row = append(row, g.DataFor(d.Type))
 		}
 		for _, d := range extra {
-			row = append(row, g.LitFor(d.Type))
+			row = append(row, g.DataFor(d.Type))
 		}
 		ins.Rows = append(ins.Rows, row)
 	}
@@ -471,6 +482,17 @@ func (g *SQLGen) Join6(tables []*model.Table) *proto.NStmt {
 		}
 		n.Where = g.Cond(fields, 3)
 	}
+	if r.Chance(1, 5) {
+		// LIMIT / OFFSET on a join: which rows come back is open (no ORDER
+		// BY), but there must be the right number of them and each must be a
+		// row of the full join result
+		if r.Chance(3, 4) {
+			n.HasLimit, n.Limit = true, r.Range(1, 4)
+		}
+		if !n.HasLimit || r.Chance(1, 3) {
+			n.HasOffset, n.Offset = true, r.Range(0, 3)
+		}
+	}
 	return n
 }
 
@@ -722,6 +744,28 @@ func (g *SQLGen) Agg7(table string, join string) *proto.NStmt {
 			}
 			return &proto.Cond{Op: []string{"=", "!="}[r.Intn(2)], LHS: &proto.Operand{Col: f.Name}, RHS: model.LitOp(proto.Str([]string{"1", "12", ""}[r.Intn(3)]))}
 		})
+	}
+	onlyCounts := true
+	for _, a := range aggs {
+		onlyCounts = onlyCounts && a.Kind == "count"
+	}
+	if len(gitems) > 0 && !padded && onlyCounts && r.Chance(1, 3) {
+		// ORDER BY some of the grouping columns (a strict subset, all of
+		// them, in another order than GROUP BY lists them), ascending or not:
+		// the groups are the same with or without it. (Only next to COUNTs and
+		// without NULL-padded sides: AVG has its known finding, and where NULL
+		// keys sort is C05's subject.) The key is written the way the select
+		// list writes the column: by its alias when it has one.
+		k := r.Range(1, len(gitems))
+		start := r.Intn(len(gitems))
+		for x := 0; x < k; x++ {
+			gi := gitems[(start+x)%len(gitems)]
+			key := *gi.item.Expr.LHS
+			if gi.item.Alias != "" {
+				key = proto.Operand{Col: gi.item.Alias}
+			}
+			n.OrderBy = append(n.OrderBy, proto.NOrder{Col: key, Desc: r.Bool()})
+		}
 	}
 	// LIMIT / OFFSET apply to the aggregated result, never to its input: an
 	// ungrouped aggregate with LIMIT 1 still covers every row
